@@ -10,7 +10,8 @@
    S2 RoutedToOwner       a behaviour event Left/Right(e) reaches only that child; the result (FullyNegotiatedOutbound /
                           DialUpgradeError of any kind) of a substream request reaches only the child that issued the
                           request, with that child's open-info; an inbound result / ListenUpgradeError of side s reaches
-                          only child s with child s's inbound open-info; AddressChange reaches both.
+                          only child s with child s's inbound open-info; AddressChange, LocalProtocolsChange and
+                          RemoteProtocolsChange reach both.
    S3 KeepAliveIsOr       connection_keep_alive() = k1 \/ k2.
    S4 ListenIsUnion       listen_protocol() offers the protocols of child 1 followed by those of child 2 (first has
                           priority), with the larger of the two timeouts and the pair of inbound open-infos.
